@@ -74,6 +74,22 @@ def corpus(features=()):
             bad = prog("    %s\n    %s\n    %s\n" % (acquire, change, use))
             good = prog("    {\n        %s\n        %s\n    }\n    %s\n" % (acquire, use, change))
             out.append(dict(name="hold_%s__%s" % (hn, cn), bad=bad, good=good, family="borrow"))
+    # a compile-time checked access kept alive across a RUNTIME-checked access to the same archetype (the runtime-borrowed
+    # API takes &self, the compile-time checked one &mut self: mixing them must be rejected by the borrow checker)
+    runtime = [
+        ("borrow_slice_mut", "let mut g = world.arch_foo.borrow_slice_mut::<CompA>(); g[0].0 += 1; drop(g);"),
+        ("borrow_slice", "let g = world.arch_foo.borrow_slice::<CompA>(); let _ = g.len(); drop(g);"),
+        ("borrow_component_mut", "{ let b = world.arch_foo.borrow(e).unwrap(); b.component_mut::<CompA>().0 += 1; }"),
+        ("find_borrow_mut", "ecs_find_borrow!(world, e, |a: &mut CompA| { a.0 += 1; });"),
+        ("iter_borrow_mut", "ecs_iter_borrow!(world, |a: &mut CompA| { a.0 += 1; });"),
+        ("clone", "let _c = { #[derive(Clone)] struct Z; world.arch_foo.len() };"),
+    ]
+    ct_holders = [h for h in HOLDERS if h[0] in ("view_world", "view_arch", "get_slice", "get_slice_mut", "all_slices", "iter_item", "iter_mut_item", "component_ref_from_view")]
+    for hn, acquire, use in ct_holders:
+        for rn, access in runtime[:5]:
+            bad = prog("    %s\n    %s\n    %s\n" % (acquire, access, use))
+            good = prog("    {\n        %s\n        %s\n    }\n    %s\n" % (acquire, use, access))
+            out.append(dict(name="mix_%s__%s" % (hn, rn), bad=bad, good=good, family="borrow"))
     # references escaping the query closures
     for mac, args in MACROS:
         if mac == "ecs_iter_destroy":
